@@ -1021,7 +1021,17 @@ impl MutableArchive {
         }
 
         // Return the maximum of all end positions, aligned to sector boundary (512 bytes)
-        let end_offset = hash_table_end.max(block_table_end).max(max_file_end);
+        let mut end_offset = hash_table_end.max(block_table_end).max(max_file_end);
+
+        // A V3/V4 archive can have more tables (HET, BET, hi-block) anywhere behind its
+        // files. Its 64-bit size covers all of them; it is trusted as far as the file goes.
+        if let Some(archive_size) = header.archive_size_64 {
+            let archive_end = archive_offset.saturating_add(archive_size);
+            if archive_end <= self.file.metadata()?.len() {
+                end_offset = end_offset.max(archive_end);
+            }
+        }
+
         let aligned_offset = (end_offset + 511) & !511; // Align to 512-byte boundary
 
         // Cache this for subsequent calls in the same session
